@@ -111,16 +111,21 @@ ScopeOfV(M, Vt) ==
 RowChoice(M, t, Vn, row, tol) ==
   LET env == row.state @@ row.choice @@ ("_period" :> R(t))
   IN IF ~\E c \in IdxSet(ChoiceSeq(M)) : Feasible(M, EnvAt(M, row.state, c, t)) THEN "SKIP:no-feasible-choice"
-     ELSE IF \E n \in ChoiceNames(M) : ~IsOnGrid(VarRec(M, n), row.choice[n]) THEN "choice-off-grid"
-     ELSE IF ~PassAll(M, "filter", env) THEN "filter"
-     ELSE IF ~PassAll(M, "constraint", env) THEN "constraint"
      ELSE LET best == FeasMax(M, t, Vn, row.state)
-              q    == Q(M, t, Vn, env)
-          IN IF best = OOS \/ q = OOS THEN "SKIP:transition-into-excluded-state"
-             ELSE IF IsNaN(best) \/ IsNaN(q) THEN "SKIP:ill-defined-arithmetic"
-             ELSE IF ~(Close(best, q, tol) \/ RLe(best, q)) THEN "not-maximal"
-             ELSE IF ~Close(best, row.value, tol) THEN "value"
-             ELSE ""
+          IN \* scope first: where the objective itself is undefined at this state (a transition into an excluded state; NaN
+             \* from 0 * inf when the value arrays in use hold -inf next to the evaluation point) there is no maximiser to
+             \* speak of, and what the code reports there -- feasible or not -- is outside the property
+             IF best = OOS THEN "SKIP:transition-into-excluded-state"
+             ELSE IF IsNaN(best) THEN "SKIP:ill-defined-arithmetic"
+             ELSE IF \E n \in ChoiceNames(M) : ~IsOnGrid(VarRec(M, n), row.choice[n]) THEN "choice-off-grid"
+             ELSE IF ~PassAll(M, "filter", env) THEN "filter"
+             ELSE IF ~PassAll(M, "constraint", env) THEN "constraint"
+             ELSE LET q == Q(M, t, Vn, env)
+                  IN IF q = OOS THEN "SKIP:transition-into-excluded-state"
+                     ELSE IF IsNaN(q) THEN "SKIP:ill-defined-arithmetic"
+                     ELSE IF ~(Close(best, q, tol) \/ RLe(best, q)) THEN "not-maximal"
+                     ELSE IF ~Close(best, row.value, tol) THEN "value"
+                     ELSE ""
 \* C03: the next row's states follow the law of motion
 RowMotion(M, t, row, nxt) ==
   LET env == row.state @@ row.choice @@ ("_period" :> R(t))
